@@ -18,6 +18,7 @@ struct IWriter {
    virtual void doAppend(const unsigned char* d, size_t len) = 0;
    virtual void doFlush() = 0;
    virtual size_t doBuffered() const = 0;
+   virtual std::string doStats() const = 0;     // statistics policy: [numAppendCalled, bytesAppended, numFlushCalled, bytesFlushed]
    mutable std::vector<Bytes> calls;
 };
 template <size_t N> struct Writer : IWriter, celma::common::WriteBuffer<N, celma::common::WriteCountPolicy> {
@@ -25,12 +26,17 @@ template <size_t N> struct Writer : IWriter, celma::common::WriteBuffer<N, celma
    void doAppend(const unsigned char* d, size_t len) override { this->append(d, len); }
    void doFlush() override { this->flush(); }
    size_t doBuffered() const override { return this->buffered(); }
+   std::string doStats() const override {
+      return "[" + std::to_string(this->numAppendCalled()) + "," + std::to_string(this->bytesAppended()) + "," + std::to_string(this->numFlushCalled()) + ","
+         + std::to_string(this->bytesFlushed()) + "]";
+   }
 };
 
 // ---------------------------------------------------------------- read side
 struct IReader {
    virtual ~IReader() = default;
    virtual void doGet(unsigned char* d, size_t len) = 0;
+   virtual std::string doStats() const = 0;     // statistics policy: [numSourceReads, bytesReadFromSource, numBufferReads, bytesReadFromBuffer]
    std::vector<long> chunkScript;   // how many bytes the next readData() calls deliver (0 = as many as requested)
    size_t chunkIdx = 0;
    long spos = 0;
@@ -55,6 +61,10 @@ template <size_t N> struct Reader : IReader, celma::common::ReadBuffer<N, celma:
       return got;
    }
    void doGet(unsigned char* d, size_t len) override { this->get(d, len); }
+   std::string doStats() const override {
+      return "[" + std::to_string(this->numSourceReads()) + "," + std::to_string(this->bytesReadFromSource()) + "," + std::to_string(this->numBufferReads()) + ","
+         + std::to_string(this->bytesReadFromBuffer()) + "]";
+   }
 };
 
 template <template <size_t> class T, typename I> static std::unique_ptr<I> make(long n) {
@@ -103,7 +113,7 @@ struct WriteSession {
       try { w->doAppend(blk.get(), d.size()); } catch (const std::exception&) { res = "exception"; }
       total += static_cast<long>(d.size());
       vj::Line().str("e", "Append").ints("d", d).raw("w", chunksJson(w->calls))
-         .num("buffered", static_cast<long long>(w->doBuffered())).str("res", res).emit();
+         .num("buffered", static_cast<long long>(w->doBuffered())).str("res", res).raw("st", w->doStats()).emit();
    }
    void flush() {
       if (!w) return;
@@ -111,7 +121,7 @@ struct WriteSession {
       const char* res = "ok";
       try { w->doFlush(); } catch (const std::exception&) { res = "exception"; }
       vj::Line().str("e", "Flush").ints("d", Bytes()).raw("w", chunksJson(w->calls))
-         .num("buffered", static_cast<long long>(w->doBuffered())).str("res", res).emit();
+         .num("buffered", static_cast<long long>(w->doBuffered())).str("res", res).raw("st", w->doStats()).emit();
    }
 };
 
@@ -132,7 +142,7 @@ struct ReadSession {
       try { r->doGet(blk.get(), static_cast<size_t>(len)); } catch (const std::exception&) { res = "refused"; threw = true; }
       Bytes data;
       if (!threw && len > 0) data.assign(blk.get(), blk.get() + len);
-      vj::Line().str("e", "GetEnd").str("res", res).ints("data", data).emit();
+      vj::Line().str("e", "GetEnd").str("res", res).ints("data", data).raw("st", r->doStats()).emit();
    }
 };
 
